@@ -36,10 +36,15 @@ type Case struct {
 	Run    bool   `json:"run"`
 	Budget int    `json:"budget_ms"`
 	RunBud int    `json:"run_budget_ms"`
+	// MaxToks > 0: when the source has more tokens than this, the token list is not returned (only its length and
+	// the bracket-balance verdict, which is all the check needs for such cases); 0 = always return the tokens
+	MaxToks int `json:"maxtoks"`
 }
 
 type Obs struct {
 	Toks     [][]any `json:"toks"`
+	Ntoks    int     `json:"ntoks,omitempty"` // set when the token list was withheld (MaxToks)
+	Unb      string  `json:"unb,omitempty"`   // with Ntoks: "" = the ( ) [ ] { } tokens nest properly, else a description
 	LexPanic string  `json:"lexpanic,omitempty"`
 	Parse    string  `json:"parse,omitempty"`
 	Perr     string  `json:"perr,omitempty"`
@@ -118,7 +123,29 @@ func crashSite(stack string) string {
 	return m[1] + "." + strings.Trim(m[2], "().*") + "." + m[3]
 }
 
-func lexOnly(src string, mode string) (o Obs) {
+// unbalanced mirrors checks/C01.py unbalanced(): "" when the bracket tokens nest properly
+func unbalanced(toks []lexer.Token) string {
+	closer := map[token.TokenType]token.TokenType{token.LPAREN: token.RPAREN, token.LBRACKET: token.RBRACKET, token.LBRACE: token.RBRACE}
+	name := map[token.TokenType]string{token.LPAREN: "(", token.LBRACKET: "[", token.LBRACE: "{", token.RPAREN: ")", token.RBRACKET: "]", token.RBRACE: "}"}
+	var stack []token.TokenType
+	for _, t := range toks {
+		ty := t.Type()
+		if _, ok := closer[ty]; ok {
+			stack = append(stack, ty)
+		} else if ty == token.RPAREN || ty == token.RBRACKET || ty == token.RBRACE {
+			if len(stack) == 0 || closer[stack[len(stack)-1]] != ty {
+				return fmt.Sprintf("%s unmatched closer at byte %d", name[ty], t.Start())
+			}
+			stack = stack[:len(stack)-1]
+		}
+	}
+	if len(stack) > 0 {
+		return name[stack[len(stack)-1]] + " never closed"
+	}
+	return ""
+}
+
+func lexOnly(src string, mode string, maxToks int) (o Obs) {
 	defer func() {
 		if r := recover(); r != nil {
 			o.Toks = nil
@@ -132,6 +159,11 @@ func lexOnly(src string, mode string) (o Obs) {
 		toks = lexer.NewLexer().Tokenize(src)
 	}
 	o.Toks = [][]any{}
+	if maxToks > 0 && len(toks) > maxToks {
+		o.Ntoks = len(toks)
+		o.Unb = unbalanced(toks)
+		return o
+	}
 	for _, t := range toks {
 		kind := "w"
 		if _, ok := t.(*lexer.LingToken); ok {
@@ -245,7 +277,7 @@ func observe(c Case) Obs {
 		return Obs{LexPanic: "bad hex"}
 	}
 	src := string(raw)
-	o := lexOnly(src, c.Mode)
+	o := lexOnly(src, c.Mode, c.MaxToks)
 	if !c.Parse {
 		return o
 	}
